@@ -16,7 +16,8 @@ from vf import si
 
 LABELS = ["A", "B", "C", "E", "F", "G2", "h_1", "Xy", "π", "N*"]
 # some labels contain one another on purpose (a look-up by substring instead of by key would confuse them)
-ENVS = ["cyt", "mem", "nuc", "ext", "cytosol", "membrane", "ex", "nuc2"]
+ENVS = ["cyt", "mem", "nuc", "ext", "cytosol", "membrane", "ex", "nuc2",
+        "2", "1", "0", "A"]      # labels that look like indices (but are not their own position), a label shared with a species
 
 
 def rng_for(seed, *salt):
